@@ -84,15 +84,17 @@ def check_data_side(ctx, rng):
         cases = cases[:220] + rs + aw[:60]
     else:
         cases = [c for i, c in enumerate(cases + special) if i % ctx.nshards == ctx.shard]
-    for (fe, verdict, L, t_data, lat, await_at) in cases:
-        run_data_case(ctx, fe, verdict, L, t_data, lat, await_at)
+    for ci, (fe, verdict, L, t_data, lat, await_at) in enumerate(cases):
+        run_data_case(ctx, fe, verdict, L, t_data, lat, await_at, implicit=(ci % 3 == 1))
 
 
-def run_data_case(ctx, fe, verdict, L, t_data, lat, await_at=0):
+def run_data_case(ctx, fe, verdict, L, t_data, lat, await_at=0, implicit=False):
     obs = {}
     vlog = []
     name = [C(b'd'), C(b'x')]
     wire = bytes(make_data(name, MetaInfo(freshness_period=5), b'payload', DigestSha256Signer()))
+    # fetched by full name: the Interest carries the implicit digest of exactly this packet; the validator still decides
+    iname = name + [rc.comp(1, __import__('hashlib').sha256(wire).digest())] if implicit else name
 
     async def main(S):
         face = RecFace()
@@ -106,7 +108,7 @@ def run_data_case(ctx, fe, verdict, L, t_data, lat, await_at=0):
                     await asyncio.sleep(lat / 1000)
                 vlog.append(('ret', S.now_ms()))
                 return give(fe, verdict)
-            coro = the_app.express(name, validator, lifetime=L, nonce=1)
+            coro = the_app.express(iname, validator, lifetime=L, nonce=1)
         else:
             async def validator(n, sig):
                 vlog.append(('call', S.now_ms()))
@@ -114,7 +116,7 @@ def run_data_case(ctx, fe, verdict, L, t_data, lat, await_at=0):
                     await asyncio.sleep(lat / 1000)
                 vlog.append(('ret', S.now_ms()))
                 return give(fe, verdict)
-            coro = the_app.express_interest(name, validator=validator, lifetime=L, nonce=1)
+            coro = the_app.express_interest(iname, validator=validator, lifetime=L, nonce=1)
 
         async def waiter():
             if await_at:
@@ -137,7 +139,7 @@ def run_data_case(ctx, fe, verdict, L, t_data, lat, await_at=0):
         await asyncio.wait_for(main_task, 5)
 
     S = vtime.run(main)
-    w = {'frontend': fe, 'verdict': repr(verdict), 'lifetime': L, 'data_at': t_data, 'validator_latency': lat, 'awaited_from': await_at}
+    w = {'frontend': fe, 'verdict': repr(verdict), 'lifetime': L, 'data_at': t_data, 'validator_latency': lat, 'awaited_from': await_at, 'by_full_name': implicit}
     if S.result != 'ok':
         ctx.report(f'data-scenario-{S.result}:{fe}', f'{S.error!r}', w)
         return
@@ -145,7 +147,9 @@ def run_data_case(ctx, fe, verdict, L, t_data, lat, await_at=0):
     tv = t_data + lat
     accept = accepts(fe, verdict)
     rel = 'before' if tv < L else 'at' if tv == L else 'after'
-    ctx.case(('data', fe, repr(verdict), L, t_data, lat, await_at), nontrivial=True, sample=w if ctx.evaluations % 60 == 0 else None)
+    if implicit:
+        ctx.event('data-fetched-by-full-name')
+    ctx.case(('data', fe, repr(verdict), L, t_data, lat, await_at, implicit), nontrivial=True, sample=w if ctx.evaluations % 60 == 0 else None)
     ctx.event(f'data-{rel}-deadline')
     if await_at:
         ctx.event('data-awaited-later-than-expressed')
@@ -582,7 +586,7 @@ def run(ctx):
     check_validator_in_force(ctx, rng)
     if ctx.shard == 0:
         check_interest_side(ctx, rng)
-    need = ['validator-in-force-history', 'multi-interest-data', 'data-awaited-later-than-expressed', 'data-validator-raised', 'data-before-deadline', 'data-after-deadline', 'data-at-deadline', 'payload-returned', 'validation-failure', 'timeout']
+    need = ['data-fetched-by-full-name', 'validator-in-force-history', 'multi-interest-data', 'data-awaited-later-than-expressed', 'data-validator-raised', 'data-before-deadline', 'data-after-deadline', 'data-at-deadline', 'payload-returned', 'validation-failure', 'timeout']
     if ctx.shard == 0:
         need += ['interest-needs-validation', 'interest-plain', 'validated-then-delivered', 'dropped', 'dropped-after-validator-raised']
     for k in need:
